@@ -32,7 +32,12 @@ def write(pid, f, results, kres):
         "counterexample": None,
         "replayed_on_real_code": False,
     }
-    if f.get("backend") == "kani":
+    if f.get("backend") == "bounded-scenario":
+        doc["counterexample"] = {k: v for k, v in f["scenario"].items() if k != "harness"}
+        doc["harness"] = f["scenario"]["harness"]
+        doc["replayed_on_real_code"] = True
+        doc["bounded"] = "scenario witness (one concrete call sequence); the unit itself is undecided"
+    elif f.get("backend") == "kani":
         cex = f.get("cex") or []
         for c in cex:
             if c.get("replay_failed_on_real_code"):
